@@ -7,6 +7,16 @@ from interp import Agg, Cell, Enum, Ref
 from models import METHODS, HeaderMapV, RequestV, VERSIONS
 
 
+def judge_key(scn, out):
+    if out.get("result", "").startswith(("panic", "crash")):
+        return True
+    if "input_error" in out:
+        return None
+    if "scheme" not in scn:
+        return out.get("key") is not None
+    return out.get("key") != scn["scheme"] + "://" + scn.get("authority", "")
+
+
 def obligations(prog, src, tier, seed):
     obs = []
     # ---- version -> protocol ------------------------------------------------------------------------
@@ -70,7 +80,7 @@ def obligations(prog, src, tier, seed):
     f_key = prog.find_one(r"key::<impl at src/client/pool/key\.rs:\d+:\d+: \d+:\d+>::try_from$", r"request::Parts")
 
     def run_key(ctx):
-        u = sym_uri(ctx)
+        u = sym_uri(ctx, userinfo=True)
         ctx.u = u
         parts = Agg("struct:Parts", [z3.BitVec("method", 8), u, z3.BitVec("version", 8), HeaderMapV(), None])
         return ctx.exec_fn(f_key, [Ref(Cell(parts, "parts"))])
@@ -93,7 +103,9 @@ def obligations(prog, src, tier, seed):
         return props
 
     obs.append({"name": "c17_urikey_total", "family": "urikey", "funcs": ["<UriKey as TryFrom<&request::Parts>>::try_from"], "bound": "every URI form",
-                "doc": "key extraction returns Ok/Err(MissingScheme), never panics", "run": run_key, "check": check_key})
+                "doc": "key extraction returns Ok/Err(MissingScheme), never panics; the key is (scheme, authority) of the request URI", "run": run_key, "check": check_key,
+                "cex_extract": lambda p, m: dict({"family": "urikey"}, **uri_scenario(m, p.ctx.u)),
+                "judge": judge_key})
 
     f_hp = prog.find_one(r"^get_host_and_port$")
 
@@ -116,5 +128,7 @@ def obligations(prog, src, tier, seed):
         return [("host is the URI host without IPv6 brackets", host == stripped), ("port is the URI port or the scheme default", port == exp_port)]
 
     obs.append({"name": "c17_get_host_and_port_total", "family": "host_and_port", "funcs": ["client::conn::transport::tcp::get_host_and_port"], "bound": "every URI form",
-                "doc": "total: Ok((host without brackets, explicit port | 80 for http | 443 for https)) or Err, never panics", "run": run_hp, "check": check_hp})
+                "doc": "total: Ok((host without brackets, explicit port | 80 for http | 443 for https)) or Err, never panics", "run": run_hp, "check": check_hp,
+                "cex_extract": lambda p, m: dict({"family": "tcp_transport"}, **uri_scenario(m, p.ctx.u)),
+                "judge": lambda scn, out: out.get("result", "").startswith("panic")})
     return obs
